@@ -194,16 +194,24 @@ template <class S> void size_profiles(vf::Ctx& c, const char* tname) {
   { std::vector<int> v; for (int n = 500; n >= 8; n = n * 2 / 3) v.push_back(n); for (int i = 0; i < 8; ++i) v.push_back(8); profiles.push_back(v); }   // shrinking
   { std::vector<int> v; for (int i = 0; i < 16; ++i) v.push_back(i % 2 ? 40 : 400); profiles.push_back(v); }          // alternating
   { std::vector<int> v; for (int i = 0; i < 16; ++i) v.push_back(8 + 33 * i); profiles.push_back(v); }                 // growing
-  for (int p : {2, 3, 6}) for (size_t ip = 0; ip < profiles.size(); ++ip) for (int prec = 0; prec < 2; ++prec) for (int pattern = 0; pattern < 4; ++pattern) {
+  // held: the caller keeps the references returned by getJ() / getY() / getW() from before the first problem (the members stay the same objects
+  // across setDataSize); illCond: every third problem is ill-conditioned (kappa 1e5 in double, 1e2 in float)
+  for (int p : {2, 3, 6}) for (size_t ip = 0; ip < profiles.size(); ++ip) for (int prec = 0; prec < 2; ++prec) for (int pattern = 0; pattern < 4; ++pattern) for (int held = 0; held < 2; ++held) for (int illCond = 0; illCond < 2; ++illCond) {
     LeastSquares<S> ls(p);
+    auto& Jheld = ls.getJ(); auto& Yheld = ls.getY(); auto& Wheld = ls.getW();
     Vec A(p), b(p); for (int j = 0; j < p; ++j) { A(j) = (S)(j % 2 ? 0.5 : 3.0); b(j) = (S)(0.25 * (j + 1)); }
     Mat Am = A.asDiagonal();
     if (prec) ls.setPreconditionner(Am, b);   // configured once, before the first problem
     for (size_t i = 0; i < profiles[ip].size(); ++i) {
       int n = std::max(profiles[ip][i], p);
       int solver = pattern == 2 ? (int)(i % 2) : pattern == 3 ? 0 : pattern;
-      Problem<S> P = make_problem<S>(n, p, 3, 1, 1, pattern == 3 ? 1 : 0, 0, (int)i + 1);
-      load(ls, P, true);
+      long double kap = (illCond && i % 3 == 2 && p > 1) ? (std::is_same<S, double>::value ? 1e5L : 1e2L) : 3;
+      Problem<S> P = make_problem<S>(n, p, kap, 1, 1, pattern == 3 ? 1 : 0, 0, (int)i + 1);
+      if (held) {
+        ls.setDataSize(n);
+        S nan = std::numeric_limits<S>::quiet_NaN(); Jheld.setConstant(nan); Yheld.setConstant(nan); Wheld.setConstant(nan);
+        for (int r = 0; r < n; ++r) { for (int j = 0; j < p; ++j) Jheld(r, j) = P.J(r, j); Yheld(r) = P.Y(r); Wheld(r) = P.W(r); }
+      } else load(ls, P, true);
       Vec x = solve(ls, P, solver);
       LeastSquares<S> fresh(p); load(fresh, P, false); if (prec) fresh.setPreconditionner(Am, b);
       Vec xf = solve(fresh, P, solver);
@@ -212,7 +220,7 @@ template <class S> void size_profiles(vf::Ctx& c, const char* tname) {
       long double d = x.template cast<long double>().allFinite() ? (x - xf).template cast<long double>().norm() : HUGE_VALL;
       long double tol = 256 * eps * 9 * (1 + xf.template cast<long double>().norm());
       if (!(d <= tol)) {
-        c.violation("LeastSquares.dependsOnHistory", vf::JO().str("type", tname).str("explorer", "size profiles").i("estimate_size", p).vec("data_sizes", std::vector<int>(profiles[ip].begin(), profiles[ip].begin() + i + 1)).b("preconditioner_set_once", prec).str("solvers", pattern == 0 ? "Cholesky" : pattern == 1 ? "SVD" : pattern == 2 ? "alternating" : "weighted").done(), vf::JO().num("difference_vs_fresh", d).num("tol", tol).done());
+        c.violation("LeastSquares.dependsOnHistory", vf::JO().str("type", tname).str("explorer", "size profiles").i("estimate_size", p).vec("data_sizes", std::vector<int>(profiles[ip].begin(), profiles[ip].begin() + i + 1)).b("preconditioner_set_once", prec).b("references_to_J_Y_W_held_from_the_start", held).b("every_third_problem_ill_conditioned", illCond).str("solvers", pattern == 0 ? "Cholesky" : pattern == 1 ? "SVD" : pattern == 2 ? "alternating" : "weighted").done(), vf::JO().num("difference_vs_fresh", d).num("tol", tol).done());
         break;
       }
     }
@@ -236,7 +244,7 @@ void vf_run(uint64_t idx, const std::string& tier, vf::Ctx& c) {
 std::string vf_describe(const std::string& tier) {
   vf::JO o;
   o.str("L", "estimate size 1..8 x data size {p,p+1,2p,50,500,31,32,64,257} x kappa {1,1e2,3e2,1e4,1e6} x magnitude {2^-27,2^-10,1,2^10} (float {2^-13,2^-6,1,2^6}) x Y {consistent, inconsistent, strongly inconsistent} x weights {none, alternating 1/4..4, one zero, one huge} x preconditioner {none, diagonal, diagonal+offset, identity+offset}; cases with 8 p kappa^2 eps > 0.5 are skipped (no digits in the normal equations)");
-  o.str("S_size_profiles", "one solver through 16-problem histories of data sizes: one big then many small (below / around a quarter), 8-500-8.., shrinking by 2/3, alternating 400/40, growing; estimate sizes {2,3,6}; preconditioner set once or never; Cholesky / SVD / alternating / weighted; each answer vs a fresh solver");
+  o.str("S_size_profiles", "one solver through 16-problem histories of data sizes: one big then many small (below / around a quarter), 8-500-8.., shrinking by 2/3, alternating 400/40, growing; estimate sizes {2,3,6}; preconditioner set once or never; Cholesky / SVD / alternating / weighted; J/Y/W written through references fetched per problem or held from before the first problem; every third problem optionally ill-conditioned; each answer vs a fresh solver");
   o.str("L_all_sizes", "every data size from p to 500 for p = 1..8, float and double, kappa 30, inconsistent Y, weights {none, alternating}, preconditioner {none, diagonal+offset}, all three solver paths");
   o.str("L_oracle", "Householder-QR solution in long double; |x - x_ref| <= 8 p eps kappa^2 (|x|+|Y|/smax); normal-equation residual; Cholesky vs SVD path");
   o.i("S_depth", tier == "thorough" ? 4 : 3).str("S_ops", "problem(p in 1..3 (setEstimateSize when it changes), n in {p,p+2,8}, solver in {Cholesky, SVD, weighted}, preconditioner {kept, setPreconditionner(A,b), setPreconditionner(A)}) = 81 operations, plus (after the first) 'assign the solver to another long-lived solver and continue with that one' and 'continue with a copy-constructed solver'; the model tracks the configured preconditioner; buffers NaN-poisoned before each problem; result vs fresh solver within 256*9 eps");
